@@ -163,11 +163,10 @@ func TestC06(t *testing.T) {
 
 		vn := vnet.New()
 		// A third of the configurations reach the router the way they do in the
-		// program: through a configuration file. JSON only: on the pinned tree
-		// yaml.v3 panics on the "omitzero" flag in the tags of the address block
-		// every configuration contains, so no YAML configuration loads at all
-		// (an observation outside the properties, see DESIGN.md 10.3).
-		viaFile := core.OneOf(c, "config.via", "", "", "json")
+		// program: through a configuration file (JSON or YAML, written by the rig
+		// under the documented key names; YAML files go without the address block,
+		// see vnet.loadViaFile).
+		viaFile := core.OneOf(c, "config.via", "", "", "json", "yaml", "yml")
 		V, err := vn.AddNode("V", vID, vnet.NodeOpts{Store: st, WithTun: true, ViaFile: viaFile})
 		if err != nil && strings.Contains(err.Error(), "is refused as a") {
 			c.Fatalf("%v", err)
